@@ -21,6 +21,7 @@ Record added (s s' : st) (e : nat) (t : tag) : Prop := {
   ad_pslots: pslots s' = pslots s;
   ad_vars  : vars s' = vars s;
   ad_dlog  : dlog s' = dlog s;
+  ad_dus   : dus s' = dus s;
   ad_other : forall x, x <> e ->
                tagof s' x = tagof s x /\ alive s' x = alive s x /\ odev s' x = odev s x /\
                obuf s' x = obuf s x /\ ginner s' x = ginner s x /\ ocur s' x = ocur s x;
@@ -70,7 +71,7 @@ Proof.
         auto using incl_refl, incl_tl; intros x Hx; try (destruct Hx; auto); auto. }
   destruct HXW as (HX & HW & HT & HT' & HX' & HW').
   destruct Hi as [Aheap Amem1 Amem2 Aown Afresh Atag Adead Ainner Aitag Ainj Aiown Agin Apres Adev Abuf Acur Acurinj
-                  Ahand Avars Avinj AT ATnd Alive Alognd Alog AD Acs].
+                  Ahand Avars Avinj AT ATnd Alive Alognd Alog AD Acs Apb].
   constructor.
   - destruct Aheap as [B1 B2 B3 B4 B5 B6]. constructor; rewrite ?(ad_lft _ _ _ _ A), ?(ad_rgt _ _ _ _ A), ?(ad_head _ _ _ _ A); try assumption.
     intros o sl x Hx. rewrite Hal; [eapply B4; exact Hx|]. apply Hne. eapply B4; exact Hx.
@@ -112,8 +113,9 @@ Proof.
       * destruct (HH k eq_refl) as (_ & _ & _ & _ & Hgf & _). congruence.
       * destruct (HO k eq_refl) as (_ & _ & _ & _ & Hgk & _). now rewrite (Hgk Hg).
     + destruct (Hoth b Hbe) as (B1 & B2 & B3 & B4 & B5 & B6). rewrite B5 in Hg. rewrite B1. now apply Agin.
-  - intros p m Ha Ht Hin. rewrite (ad_pres _ _ _ _ A). destruct (Hmem_ne _ _ _ Hin) as [_ Hpe].
-    rewrite Hal in Ha by exact Hpe. rewrite Htg in Ht by exact Hpe. now apply Apres.
+  - intros p m Ha Ht Hw Hin. rewrite (ad_pres _ _ _ _ A). destruct (Hmem_ne _ _ _ Hin) as [_ Hpe].
+    rewrite Hal in Ha by exact Hpe. rewrite Htg in Ht by exact Hpe. apply Apres; try assumption.
+    intros Hc. apply Hw. now apply HW.
   - intros o k Ha Ht Hk1 Hk2. destruct (Nat.eq_dec o e) as [->|Hoe].
     + rewrite (ad_tag _ _ _ _ A) in Ht. destruct (HO k Ht) as (_ & _ & _ & Hd & _).
       destruct (Hd Hk1 Hk2) as (d & D1 & D2 & D3). exists d. split; [exact D1|].
@@ -186,6 +188,12 @@ Proof.
     pose proof (Acs d st Ha Ht ltac:(intros Hc; apply Hw; now apply HW) Hp) as Hod.
     assert (Hse : st <> e) by (intros ->; congruence).
     destruct (Hoth st Hse) as (_ & _ & -> & _). exact Hod.
+  - intros p Ha Ht Hw.
+    assert (Hpe : p <> e).
+    { intros ->. apply Hw. rewrite (ad_tag _ _ _ _ A) in Ht. destruct (HO KPool Ht) as (_ & -> & _). now left. }
+    rewrite (ad_pres _ _ _ _ A), (ad_pslots _ _ _ _ A), (ad_oinner _ _ _ _ A).
+    rewrite Hal in Ha by exact Hpe. rewrite Htg in Ht by exact Hpe.
+    apply Apb; try assumption. intros Hc. apply Hw. now apply HW.
 Qed.
 
 End A.
